@@ -145,6 +145,8 @@ def map_scenario(sc):
             if e['g'] in g2h:
                 h = g2h[e['g']]; pump_close(h)
                 if h not in pump_done: pump_done.add(h); lab('LPump %d' % h)
+        elif p == 'decorator.close.inner_closed':
+            if e['g'] in g2h: lab('LSubCloseRet %d' % g2h[e['g']])
         elif p == 'decorator.close.signalled':
             if e['g'] in g2h: lab('LHc %d' % g2h[e['g']])
         elif p in ('router.handler.wg_locked', 'router.handler.wg_added'):
@@ -296,7 +298,7 @@ def classify(res, scs, mapped, reps, mons):
         if sc.get('panics'):
             res.violations.append(dict(signature='C06/panic', what='panic in Run/Close: %s' % sc['panics'][:2], case=readable(sc, mp)))
         for h in sc.get('hung') or []:
-            res.violations.append(dict(signature='C06/never-returns', what=h, case=readable(sc, mp)))
+            res.violations.append(dict(signature='C06/close-hangs-beyond-CloseTimeout' if h.startswith('Close hangs') else 'C06/never-returns', what=h, case=readable(sc, mp)))
         seen = set()
         for i, c in mo:
             if c in seen: continue
